@@ -4333,6 +4333,7 @@ async fn handle_connected_state_no_dtls(
                 inner.vemit("pub", "nodtls.connected");
                 let grace = inner.config.ice_disconnect_grace;
                 drop(inner);
+                drop(pc_temp);
 
                 let (grace_tx, mut grace_rx) = tokio::sync::mpsc::unbounded_channel::<u64>();
                 let mut disconnect_epoch: u64 = 0;
@@ -4467,6 +4468,12 @@ async fn handle_connected_state(
                         #[cfg(rustrtc_verif)]
                         inner.vemit("pub", "conn.connected");
 
+                        // From here on hold only the weak reference (like the no-DTLS
+                        // handler): a strong one would keep the connection alive after
+                        // the application has dropped its last handle, so `Drop` could
+                        // never tear a connected PeerConnection down.
+                        drop(pc_temp);
+
                         let dtls_state_rx = {
                             let dtls_guard = inner.dtls_transport.lock();
                             (*dtls_guard).as_ref().map(|dtls| dtls.subscribe_state())
@@ -4474,11 +4481,13 @@ async fn handle_connected_state(
 
                         if let Some(mut dtls_rx) = dtls_state_rx {
                             let grace = inner.config.ice_disconnect_grace;
+                            drop(inner);
                             let (grace_tx, mut grace_rx) = tokio::sync::mpsc::unbounded_channel::<u64>();
                             let mut disconnect_epoch: u64 = 0;
                             loop {
                                 tokio::select! {
                                     _ = &mut rtcp_loop => {
+                                        let Some(inner) = inner_weak.upgrade() else { return false; };
                                         propagate_sctp_close_reason(&inner);
                                         if !is_ice_failed_or_closed(*ice_state_rx.borrow()) {
                                             inner.report_transport_ended();
@@ -4489,6 +4498,7 @@ async fn handle_connected_state(
                                     }
                                     res = ice_state_rx.changed() => {
                                         if res.is_err() { return false; }
+                                        let Some(inner) = inner_weak.upgrade() else { return false; };
                                         let new_state = *ice_state_rx.borrow();
                                         if is_ice_failed_or_closed(new_state) {
                                             return true;
@@ -4527,6 +4537,7 @@ async fn handle_connected_state(
                                         }
                                     }
                                     res = dtls_rx.changed() => {
+                                        let Some(inner) = inner_weak.upgrade() else { return false; };
                                         if res.is_ok() {
                                             let state = dtls_rx.borrow().clone();
                                             if state == crate::transports::dtls::DtlsState::Closed || state == crate::transports::dtls::DtlsState::Failed {
@@ -4552,6 +4563,7 @@ async fn handle_connected_state(
                                         }
                                     }
                                     Some(epoch) = grace_rx.recv() => {
+                                        let Some(inner) = inner_weak.upgrade() else { return false; };
                                         if epoch == disconnect_epoch {
                                             let _ = inner.disconnect_reason.send_if_modified(|cur| {
                                                 if cur.is_none() {
@@ -4578,11 +4590,13 @@ async fn handle_connected_state(
                             }
                         } else {
                             let grace = inner.config.ice_disconnect_grace;
+                            drop(inner);
                             let (grace_tx, mut grace_rx) = tokio::sync::mpsc::unbounded_channel::<u64>();
                             let mut disconnect_epoch: u64 = 0;
                             loop {
                                 tokio::select! {
                                     _ = &mut rtcp_loop => {
+                                        let Some(inner) = inner_weak.upgrade() else { return false; };
                                         propagate_sctp_close_reason(&inner);
                                         if !is_ice_failed_or_closed(*ice_state_rx.borrow()) {
                                             inner.report_transport_ended();
@@ -4593,6 +4607,7 @@ async fn handle_connected_state(
                                     }
                                     res = ice_state_rx.changed() => {
                                         if res.is_err() { return false; }
+                                        let Some(inner) = inner_weak.upgrade() else { return false; };
                                         let new_state = *ice_state_rx.borrow();
                                         if is_ice_failed_or_closed(new_state) {
                                             return true;
@@ -4631,6 +4646,7 @@ async fn handle_connected_state(
                                         }
                                     }
                                     Some(epoch) = grace_rx.recv() => {
+                                        let Some(inner) = inner_weak.upgrade() else { return false; };
                                         if epoch == disconnect_epoch {
                                             let _ = inner.disconnect_reason.send_if_modified(|cur| {
                                                 if cur.is_none() {
